@@ -418,6 +418,16 @@ def _ripemd(ctx):
                          T.add(T.add(hs[4], al), br), T.add(T.add(hs[0], bl), cr)])
             same_term(ob, res, exp, 'final combination of chaining value and the two lines', fc.where)
     _ripemd_pad(ctx)
+    # the Base58Check addresses are standard only if the Base58 writer is (a mainnet P2PKH payload starts with the zero
+    # version byte, and one hash in 256 continues with another: seed C05-M counts the leading zeros wrongly) - C10's
+    # obligations on the writer are part of this property
+    from . import C10
+    sub10 = ctx.__class__('C05', ctx.tier, ctx.p, ctx.seed)
+    C10.run(sub10)
+    for o in sub10.obligations:
+        if (o.rule in ('C10.LOOPS', 'C10.ONEFORONE') and 'encode_base58' in o.construct) or o.rule in ('C10.WRITER', 'C10.TOTAL'):
+            o.rule = 'C05.B58-%s(=C10)' % o.rule.split('.')[1]
+            ctx.obligations.append(o)
 
 
 def _ripemd_pad(ctx):
